@@ -265,7 +265,7 @@ func runVia(steps []wStep, text bool, via int) (replies [][]string, leaderState 
 }
 
 func runVia2(steps []wStep, text bool, via int) (replies [][]string, leaderState string, leaderRepl string, followerState string, err string) {
-	rt := vrt.Run(vrt.Options{MaxPoints: 200_000_000}, func() {
+	rt := vrt.Run(vrt.Options{MaxPoints: 200_000_000, HB: true}, func() {
 		cl, e := StartLeaderFollowers(1, nil)
 		if e != nil {
 			err = e.Error()
@@ -288,6 +288,9 @@ func runVia2(steps []wStep, text bool, via int) (replies [][]string, leaderState
 	})
 	if rt.Crash != nil {
 		err = "crash: " + rt.Crash.Value + "\n" + firstLines(rt.Crash.Stack, 14)
+	}
+	if mr := rt.MapRaceReport(); mr != "" && err == "" {
+		err = "crash: two threads access a map without an ordering between them (the Go runtime kills the process when they meet): " + mr
 	}
 	if rt.Deadlock != "" {
 		err = "deadlock: " + rt.Deadlock
